@@ -68,6 +68,8 @@ C03(ctx) ==
   \cup (IF HasError(ctx.dg) THEN {VG("C03.noerror", ctx.M.path)} ELSE {})
   \cup (IF ctx.pn THEN {} ELSE
           Absent(ctx.M, ctx.tf)
+          \* (a result still flagged null holds no attribute at all, whatever its Attrs map says)
+          \cup (IF ctx.tf.k = "obj" /\ ctx.tf.null THEN {[VG("C03.present", ctx.M.path) EXCEPT !.sig = "the object is null"]} ELSE {})
           \cup (IF ~Conforms(ctx.tf, ctx.tt) THEN {VG("C03.typed", ctx.M.path)} ELSE {})
           \cup (IF ~NoUnknown(ctx.tf) THEN {VG("C03.nounknown", ctx.M.path)} ELSE {})
           \cup (IF ~ctx.conv THEN {VG("C03.convertible", ctx.M.path)} ELSE {}))
